@@ -17,6 +17,7 @@ from concurrent.futures import ProcessPoolExecutor
 HERE = os.path.dirname(os.path.dirname(os.path.abspath(__file__)))
 sys.path.insert(0, HERE)
 from cxa.index import AnalysisError, Index  # noqa: E402
+from cxa.report import run_property  # noqa: E402
 from cxa.report import load_known  # noqa: E402
 
 ALL = [f"C{i:02d}" for i in range(1, 21) if i != 7]
@@ -36,10 +37,12 @@ def _digest():
 
 def _run(args):
     p, repo = args
-    mod = importlib.import_module(f"cxa.props.{p.lower()}")
     try:
-        res = mod.run(Index(repo))
-        return p, [(f.rule, f.key, f.where, f.what) for f in res.findings]
+        res = run_property(p, Index(repo))
+        out = [(f.rule, f.key, f.where, f.what) for f in res.findings]
+        if res.incomplete:
+            out.append(("ANALYSIS-ERROR", "", "", str(res.incomplete)))
+        return p, out
     except AnalysisError as e:
         return p, [("ANALYSIS-ERROR", "", "", str(e))]
 
